@@ -21,9 +21,16 @@ def plan(tier, seed):
     specs.append({'lane': 'real', 'sc': 'recycle', 'timeout': 150, 'params': {
         'nproc': 2, 'maxtasks': None, 'max_mem': 1, 'T': 1.0, 'wait': 100, 'memlimit': True,
         'jobs': [{'kind': 'apply', 'tag': 'mem%d' % j, 'dur': 0.02} for j in range(6)]}})
-    for nproc, kill in ((2, 1), (4, 2)) if tier == 'quick' else ((1, 1), (2, 1), (3, 2), (4, 4)):
+    for nproc, kill in ((2, 1), (4, 2)) if tier == 'quick' else ((2, 1), (3, 2), (4, 3)):
         specs.append({'lane': 'real', 'sc': 'kill_idle', 'timeout': 100,
-                      'params': {'nproc': nproc, 'kill': kill, 'sig': rng.choice([9, 11, 15]), 'T': 1.0}})
+                      'params': {'nproc': nproc, 'kill': kill, 'victim_kind': 'waiter',
+                                 'sig': rng.choice([9, 11, 15]), 'T': 1.0}})
+    # the idle worker that holds the queue's read lock: TERM is handled in
+    # Python (lock released); a hard kill leaves the lock taken (known finding)
+    specs.append({'lane': 'real', 'sc': 'kill_idle', 'timeout': 100,
+                  'params': {'nproc': 2, 'kill': 1, 'victim_kind': 'holder', 'sig': 15, 'T': 1.0}})
+    specs.append({'lane': 'real', 'sc': 'kill_idle', 'timeout': 80,
+                  'params': {'nproc': 2, 'kill': 1, 'victim_kind': 'holder', 'sig': 9, 'T': 1.0}})
     return specs
 
 
@@ -45,12 +52,20 @@ def run_spec(spec, rec):
     rec.case()
     attrs = {'lane': 'real', 'scenario': spec['sc'], 'maxtasks': p.get('maxtasks'),
              'memlimit': bool(p.get('memlimit'))}
+    if spec['sc'] == 'kill_idle':
+        attrs['hard_kill_of_lock_holder'] = bool(
+            obs.get('victim_held_queue_lock') and p.get('sig') != 15)
     if r['status'] != 'ok':
         rec.violation('host_process_died' if r['status'] == 'died' else 'pool_hung_while_recycling',
                       attrs, rc=r['rc'], obs=obs, stderr=r['stderr'][-4000:], params=p)
         return
     if spec['sc'] == 'kill_idle':
         rec.count('real:kill_idle_scenarios')
+        if obs.get('victim_held_queue_lock'):
+            rec.count('real:kill_idle_lock_holder')
+        if not obs.get('victims'):
+            rec.anomaly('no_idle_victim_of_requested_kind', obs=obs)
+            return
         if any(o[0] != 'ok' for o in obs['after']):
             rec.violation('job_failed_after_idle_worker_died', attrs, after=obs['after'], params=p)
         if obs['live_workers'] != p['nproc'] or obs['victims_still_in_pool']:
